@@ -15,6 +15,7 @@ import (
 	"io"
 	"sort"
 	"strings"
+	"sync/atomic"
 
 	"mellium.im/xmpp/internal/marshal"
 	"mellium.im/xmpp/jid"
@@ -471,8 +472,34 @@ type encPath struct {
 	f    func() ([]byte, error)
 }
 
+// unmarshalable is a value whose marshalling fails after part of it has been
+// produced (a map field behind ordinary fields): what an application passes to
+// Encode by mistake.  The failure is that call's; the next value must be
+// encoded as if it had never happened.
+type unmarshalable struct {
+	XMLName xml.Name       `xml:"urn:verif:report report"`
+	Title   string         `xml:"title"`
+	Fields  map[string]int `xml:"fields"`
+}
+
+var failedMarshals atomic.Int64
+
+// failFirst makes every third call of the marshal paths preceded by a failing
+// marshal through the same package.
+func failFirst() {
+	if failedMarshals.Add(1)%3 != 0 {
+		return
+	}
+	bad := unmarshalable{Title: "quarterly <numbers>", Fields: map[string]int{"a": 1}}
+	if r, err := marshal.TokenReader(bad); err == nil {
+		collect(r)
+	}
+	marshal.EncodeXML(xml.NewEncoder(io.Discard), bad)
+}
+
 // viaEncodeXML runs the internal/marshal writer path.
 func viaEncodeXML(v any) ([]byte, error) {
+	failFirst()
 	var b bytes.Buffer
 	e := xml.NewEncoder(&b)
 	if err := marshal.EncodeXML(e, v); err != nil {
@@ -483,6 +510,7 @@ func viaEncodeXML(v any) ([]byte, error) {
 }
 
 func viaTokenReader(v any) ([]byte, error) {
+	failFirst()
 	r, err := marshal.TokenReader(v)
 	if err != nil {
 		return nil, err
